@@ -1601,6 +1601,11 @@ def case_desc(case):
 
 # ------------------------------------------------------------------------------------------ helper ops
 
+def runs_ok(present):
+    """the tensors (if any) form one contiguous run — the documented domain"""
+    return sum(1 for i, p in enumerate(present) if p and (i == 0 or not present[i - 1])) <= 1
+
+
 def helper_cases(ctx, n):
     from qecsim.tensortools import mps as M
     rng = ctx.rng
@@ -1635,8 +1640,25 @@ def helper_cases(ctx, n):
             ctx.monitor_fail('zeros_like returned non-zero entries', {'present': present}, key='zero-handling')
         ctx.case('c12 rev ' + w, 'ok ' + wire_mps(shapes_of(M.reverse(mps))), nontrivial=any(present),
                  meta={'helper': True})
-        ctx.case('c12 bond ' + w, 'ok {}'.format(int(M.bond_dimension(mps))), nontrivial=any(present),
-                 meta={'helper': True})
+        try:
+            bd = 'ok {}'.format(int(M.bond_dimension(mps)))
+        except Exception as ex:      # never on the unchanged tree: rendered, so that it disagrees with the model
+            bd = 'raised ' + err_name(ex)
+        ctx.case('c12 bond ' + w, bd, nontrivial=any(present), meta={'helper': True})
+        if runs_ok(present):
+            # truncate is the identity when no bond exceeds chi (here chi = the largest bond, or 1 without tensors)
+            cap = max([t.shape[0] for t in mps if t is not None] + [t.shape[2] for t in mps if t is not None] + [1])
+            try:
+                out, nrm = M.truncate(mps, chi=cap)
+                same = len(out) == len(mps) and all(
+                    (o is None and t is None) or (o is not None and t is not None and np.array_equal(o, t))
+                    for o, t in zip(out, mps)) and float(nrm) == 1.0
+                what = None if same else 'returned a different MPS or norm {!r}'.format(nrm)
+            except Exception as ex:
+                what = 'raised {!r}'.format(ex)
+            if what:
+                ctx.monitor_fail('truncate(mps, chi={}) with no bond above chi is not the identity: {}'.format(cap, what),
+                                 {'present': present, 'shapes': shapes_of(mps)}, key='truncate-noop-not-identity')
 
 
 # ------------------------------------------------------------------------------------------ run / search / replay
